@@ -249,3 +249,57 @@ Qed.
 (* keys that need no quoting are returned unchanged *)
 Definition plain_key (k : bytes) : Prop :=
   forall len ts, ts = O -> quote_from len ts 0 k = k.
+
+(* ------------------------------------------------------------------ identifiers written without
+   backslashes: trailing spaces before a delimiter are not part of the key, inner spaces are *)
+Lemma id_loop_plain : forall s r src dest prot,
+    Forall (fun c => is_idchar c = true /\ (c =? 92) = false) s -> stops r ->
+    id_loop (s ++ r) src dest prot = Some (rev s ++ dest, prot, r).
+Proof.
+  induction s as [|c s IH]; intros r src dest prot Hs Hr.
+  - simpl. destruct r as [|c r]; [reflexivity|]. simpl in Hr. simpl. now rewrite Hr.
+  - inversion Hs as [|? ? [Hc H92] Hs']; subst. cbn [app id_loop]. rewrite Hc, H92. cbn [negb].
+    rewrite IH by assumption. simpl. now rewrite <- app_assoc.
+Qed.
+
+Lemma repeat_snoc {A} (x : A) n : repeat x n ++ [x] = x :: repeat x n.
+Proof. induction n; simpl; [reflexivity|now rewrite IHn]. Qed.
+Lemma rev_repeat' {A} (x : A) n : rev (repeat x n) = repeat x n.
+Proof. induction n; simpl; [reflexivity|]. rewrite IHn. apply repeat_snoc. Qed.
+
+Lemma trim_spaces : forall n c d, (c =? 32) = false -> trim (repeat 32 n ++ c :: d) 0 = c :: d.
+Proof.
+  induction n as [|n IH]; intros c d Hc.
+  - simpl. rewrite Hc. now rewrite andb_false_r.
+  - cbn [repeat app trim]. rewrite app_length. cbn [length].
+    replace (Nat.ltb 0 (length (repeat 32 n) + S (length d))) with true
+      by (symmetry; apply Nat.ltb_lt; lia).
+    change (32 =? 32) with true. cbn [andb]. now apply IH.
+Qed.
+
+Theorem plain_trailing_spaces_trimmed c0 k l n r :
+  is_idchar1 c0 = true -> (c0 =? 92) = false ->
+  Forall (fun c => is_idchar c = true /\ (c =? 92) = false) (k ++ [l]) -> (l =? 32) = false ->
+  stops r ->
+  scan ((c0 :: k ++ [l]) ++ repeat 32 n ++ r) = (T_ID (c0 :: k ++ [l]), r).
+Proof.
+  intros H1 H92 Hk Hl Hr.
+  change ((c0 :: k ++ [l]) ++ repeat 32 n ++ r) with (c0 :: ((k ++ [l]) ++ repeat 32 n ++ r)).
+  rewrite scan_idstart by assumption.
+  change (c0 :: ((k ++ [l]) ++ repeat 32 n ++ r)) with ((c0 :: k ++ [l]) ++ repeat 32 n ++ r).
+  rewrite app_assoc.
+  rewrite id_loop_plain; [| |assumption].
+  - rewrite app_nil_r, rev_app_distr, rev_repeat'.
+    change (c0 :: k ++ [l]) with ([c0] ++ (k ++ [l])). rewrite rev_app_distr, rev_app_distr.
+    cbn [rev app]. rewrite trim_spaces by assumption.
+    cbn [rev]. rewrite rev_app_distr, rev_involutive. reflexivity.
+  - apply Forall_app. split.
+    + constructor; [split; [now apply idchar1_idchar|assumption]|assumption].
+    + clear. induction n; simpl; constructor; auto.
+Qed.
+
+(* observation D35: after k escapes up to k unescaped trailing spaces survive the trim
+   ("\.\.a  " scans as the key "..a " with one trailing space); quote_key never relies on this *)
+Example trim_after_escapes_example :
+  scan [92; 46; 92; 46; 97; 32; 32] = (T_ID [46; 46; 97; 32], []).
+Proof. vm_compute. reflexivity. Qed.
